@@ -127,13 +127,16 @@ def _drive(script, timeout_s, default_s, conn_s, rng, sel):
     return tr
 
 
-def two_devices():
+def two_devices(layout=None):
     """Two ADB devices on the bus that report the same serial number (cheap devices often do), one transport each, used in turn:
-    connect(A), connect(B), use A, use B, close B, use A.  One trace per transport."""
+    connect(A), connect(B), use A, use B, close B, use A.  One trace per transport.  With a layout: the two devices sit on the same
+    port chain behind two host controllers (bus 1 port 2.3 and bus 2 port 2.3)."""
     from adb_shell.transport.usb_transport import UsbTransport
     B.reset()
     B.ndevices = 2
-    ts = {'A': UsbTransport.find_adb(port_path=[1, 2, 3], default_transport_timeout_s=1.0), 'B': UsbTransport.find_adb(port_path=[1, 2, 4], default_transport_timeout_s=1.0)}
+    B.layout = layout
+    pa, pb = ([1, 2, 3], [1, 2, 4]) if not layout else ([layout[0][0]] + layout[0][1], [layout[1][0]] + layout[1][1])
+    ts = {'A': UsbTransport.find_adb(port_path=pa, default_transport_timeout_s=1.0), 'B': UsbTransport.find_adb(port_path=pb, default_transport_timeout_s=1.0)}
     trs = {'A': [], 'B': []}
     closed = {'A': True, 'B': True}
 
@@ -165,6 +168,7 @@ def two_devices():
     for who, what in (('A', 'connect'), ('B', 'connect'), ('A', 'write'), ('B', 'write'), ('B', 'close'), ('A', 'write'), ('B', 'connect'), ('A', 'write'), ('A', 'close'), ('B', 'write'), ('B', 'close')):
         do(who, what)
     B.ndevices = 1
+    B.layout = None
     return [trs['A'], trs['B']]
 
 
@@ -254,9 +258,10 @@ def body(ctx):
     for sd in range(6):
         traces.append(drive(big, 1.0, None, short=True, seed=100 + sd))
         meta.append(dict(kind='large writes with short transfers; partial data of a timed-out read; reconnect', script=big, seed=100 + sd))
-    for tr_ in two_devices():
-        traces.append(tr_)
-        meta.append(dict(kind='two devices with the same serial number, one transport each'))
+    for lay in (None, [(1, [2, 3]), (2, [2, 3])], [(3, [1]), (1, [1])]):
+        for tr_ in two_devices(lay):
+            traces.append(tr_)
+            meta.append(dict(kind='two devices with the same serial number, one transport each', layout=lay))
     ver, r = tlc.validate_traces('TraceUsb', traces)
     ctx.add_tlc(r, 'TraceUsb over %d scripts on the fake libusb backend' % len(traces))
     okn = 0
